@@ -93,9 +93,17 @@ Print Assumptions C08_ordinal_cell_holds_trace.
 (* the generated get_trace on an unstructured 3D file IS the read of grid position mask_nth(i) *)
 Theorem C08_get_trace_through_mask : forall (Hd : hdr) (mn : Z -> outcome Z) i c lo hi,
   (rd_blockshape0_v1 Hd =? 1) = false -> (rd_tracecount Hd =? rd_n_ilines Hd * rd_n_xlines Hd) = false ->
+  0 <= i < rd_tracecount Hd ->
   mn i = Return c -> rd_get_trace mn Hd i lo hi false = rd_get_trace mn Hd c lo hi true.
 Proof. exact get_trace_through_mask. Qed.
 Print Assumptions C08_get_trace_through_mask.
+
+(* an ordinal outside [0, tracecount) -- negative ones included -- is refused, whatever the mask holds (C14 for irregular files) *)
+Theorem C08_get_trace_ordinal_out_of_range : forall (Hd : hdr) (mn : Z -> outcome Z) i lo hi,
+  (rd_blockshape0_v1 Hd =? 1) = false -> (rd_tracecount Hd =? rd_n_ilines Hd * rd_n_xlines Hd) = false ->
+  ~ (0 <= i < rd_tracecount Hd) -> rd_get_trace mn Hd i lo hi false = Raise IndexErr.
+Proof. exact get_trace_ordinal_oob. Qed.
+Print Assumptions C08_get_trace_ordinal_out_of_range.
 
 (* header i of the SGZ is source header i, for every field stored as an array *)
 Theorem C08_header_ordinal_map : forall G n H bs0 g F f Fv,
